@@ -1,0 +1,12 @@
+//go:build verif
+
+package kgo
+
+// This file exists only under the `verif` build tag. It exports thin shims
+// over unexported functions for the external model-based verification
+// harness; it changes no behaviour.
+
+// VerifIncrementSequence exposes incrementSequence.
+func VerifIncrementSequence(sequence, increment int32) int32 {
+	return incrementSequence(sequence, increment)
+}
